@@ -103,10 +103,16 @@ def run(ctx, F, rule="E-CACHE.dm"):
                 "locked until post_gc so that nothing is inserted while nodes are collected" % drops) if drops else
                ("no lock()/mem::forget(guard) pair found" if not (forgets and locks) else
                 "every entry is locked, cleared and its guard forgotten")))
-        ok = bool(clears) and all(any(B.dominates(c, f) for c in clears) for f in forgets)
+        # the entry is cleared *through its guard*, i.e. while its lock is held: lock() dominates EntryGuard::clear()
+        # dominates mem::forget(guard).  (Clearing first and locking in a second pass leaves a window in which a concurrent
+        # operation re-fills an entry that then stays locked-in and uncleared across the collection.)
+        gclears = [i for i, t in B.calls() if re.search(r"EntryGuard<.*>::clear$|EntryGuard::<.*>::clear$", cfg.callee_name(t) or "")]
+        ok = bool(gclears) and all(any(B.dominates(c, f) and any(B.dominates(l, c) for l in locks) for c in gclears) for f in forgets)
         ctx.ob(rule, rule + ":pre_gc-clears", ok,
-               "DMApplyCache::pre_gc (%s): the guard is forgotten on a path that did not clear the entry" % F.where(fid)
-               if not ok else "clear() dominates mem::forget(guard)")
+               "DMApplyCache::pre_gc (%s): the guard is forgotten on a path that did not clear the entry under its own lock (lock -> "
+               "EntryGuard::clear -> forget): an entry inserted between a separate clearing pass and the locking pass survives the "
+               "collection with edges to freed nodes" % F.where(fid)
+               if not ok else "lock() dominates EntryGuard::clear() dominates mem::forget(guard)")
     if ctx.anchor(rule, "DMApplyCache::post_gc", len(post) == 1):
         B = cfg.Body(F.mir[post[0]])
         unl = [i for i, t in B.calls() if (cfg.callee_name(t) or "").endswith("::unlock")]
